@@ -3,7 +3,8 @@
 //
 //	callgraph <repo> lean [f]  (also writes the JSON facts to file f) Lean definitions for Poly/Generated/CallGraph.lean (graph, entries, sink sites,
 //	                           closure certificate, one witness path per reachable sink site)
-//	callgraph <repo> json      the same facts with names, source positions and call paths; plus the callers of
+//	callgraph <repo> json [functions]   (with a 4th argument: also every declared function with file and line range,
+//	                           for the coverage cross-check) the same facts with names, source positions and call paths; plus the callers of
 //	                           NativeService.NativeCall / Invoke and CacheDB.Commit / Reset inside native/service
 //
 // The graph is built from go/types information of every package of the module (syntax of the module's packages,
@@ -58,6 +59,9 @@ type node struct {
 	site  bool   // forbidden-sink use site
 	key   string // site key
 	entry string // why it is an entry ("" = not an entry)
+	file  string // <import path>/<file name> of a declared function, as coverage profiles name it
+	l0    int    // first and last line of the declaration
+	l1    int
 }
 
 type builder struct {
@@ -281,6 +285,12 @@ func main() {
 					// package initialisers are nodes too (never entries): what they store in globals can be called later
 					n := b.newNode(funcName(obj), b.pos(d.Pos()))
 					b.byObj[obj] = n
+					pp := b.fset.Position(d.Pos())
+					fn := pp.Filename
+					if i := strings.LastIndex(fn, "/"); i >= 0 {
+						fn = fn[i+1:]
+					}
+					n.file, n.l0, n.l1 = p.PkgPath+"/"+fn, pp.Line, b.fset.Position(d.End()).Line
 					if d.Body != nil && !opaquePkgs[p.PkgPath] {
 						bodies = append(bodies, body{n, p, d.Body})
 					}
@@ -709,7 +719,16 @@ func main() {
 		}
 		enc := json.NewEncoder(f)
 		enc.SetIndent("", " ")
+		var fns []map[string]interface{}
+		if len(os.Args) > 4 || (out == "json" && len(os.Args) > 3) { // optional: every declared function with its line range
+			for _, n := range b.nodes {
+				if n.file != "" {
+					fns = append(fns, map[string]interface{}{"name": n.name, "file": n.file, "l0": n.l0, "l1": n.l1, "reachable": reach[n.id]})
+				}
+			}
+		}
 		enc.Encode(map[string]interface{}{
+			"functions": fns,
 			"module_functions": len(b.nodes), "reachable": len(reach), "edges_from_reachable": nEdges,
 			"entries": ents, "sites": sites, "callers": b.nativeUse,
 			"registered_handlers": nHandlers, "chain_handler_types": nImpl,
